@@ -379,3 +379,36 @@ func (pt *Path) fieldwise(a *ssa.Alloc, before ssa.Instruction) string {
 	}
 	return typeShort(ptr.Elem()) + "{" + strings.Join(parts, ",") + "}"
 }
+
+// StoreEv is a store executed on a path.
+type StoreEv struct {
+	Instr *ssa.Store
+	Addr  string
+	Val   string
+}
+
+// Stores lists the stores executed on the path, in order, with path-resolved
+// descriptors of the address and the value.
+func (pt *Path) Stores() []StoreEv {
+	var out []StoreEv
+	for _, b := range pt.Blocks {
+		for _, ins := range b.Instrs {
+			if st, ok := ins.(*ssa.Store); ok {
+				out = append(out, StoreEv{st, pt.D.Of(st.Addr), pt.Desc(st.Val)})
+			}
+		}
+	}
+	return out
+}
+
+// StoresTo returns the values stored on the path to the address with the
+// given descriptor.
+func (pt *Path) StoresTo(addr string) []string {
+	var out []string
+	for _, s := range pt.Stores() {
+		if s.Addr == addr {
+			out = append(out, s.Val)
+		}
+	}
+	return out
+}
